@@ -6,6 +6,7 @@ From Coq Require Import Permutation.
 From Verif Require Import C05.Model C05.Spec C05.ProofsA C05.ProofsB C05.Proofs C05.ProofsC.
 From Verif Require Import Lib.Bytes C15.Model C05.StreamModel C05.ShowModel C05.ProofsStream C05.ProofsShow.
 From VerifGen Require Import Consts.
+From Verif Require Import C05.MergeModel C05.ProofsMerge.
 Open Scope N_scope.
 
 (* mapShards: the per-node shard lists partition the query's shard set (Permutation +
@@ -439,4 +440,112 @@ Proof. repeat split; vm_compute; reflexivity. Qed.
 Example ex_show_covered :
   covered 1 [1; 2; 3] sw_beh [mkShard 1 [2; 3]; mkShard 2 [2; 3]] = true /\
   show_fanout 1 [1; 2; 3] sw_beh sw_data [mkShard 1 [2; 3]; mkShard 2 [2; 3]] = ([10; 11; 20], false).
+Proof. split; vm_compute; reflexivity. Qed.
+
+
+(* ====================================================================================
+   Typed merge of the fan-out (MergeModel.v): ClusterShardMapping.CreateIterator appends the
+   sources' iterators in goroutine-completion order and Iterators.Merge lets the FIRST input
+   decide the element type, closing and dropping inputs of any other type.
+   ==================================================================================== *)
+
+(* Repaired rule (an Unknown-typed reply yields no iterator): for every field type t0, every
+   list of sources - local or remote, any number of them holding no such field (type Unknown,
+   no rows), all others of type t0 with any rows - and EVERY arrival order (any permutation of
+   the sources), the merged stream holds every row of every source exactly once (as a sorted
+   multiset) and has type t0. *)
+Theorem typed_merge_complete :
+  forall (t0 : dtype) (srcs arrival : list tsource),
+    wf_sources t0 srcs -> Permutation arrival srcs ->
+    rows_of (typed_merge true arrival) = all_rows srcs /\
+    (forall t r, typed_merge true arrival = Some (t, r) -> t = t0).
+Proof. exact typed_merge_complete_l. Qed.
+Print Assumptions typed_merge_complete.
+
+(* Pinned rule (Unknown reply -> nilFloatReaderIterator): complete only for float fields or
+   when no remote source lacks the field.  Missing: integer/unsigned/string/boolean fields with
+   a remote node whose shards hold no such measurement - refuted below. *)
+Theorem typed_merge_pinned_partial :
+  forall (t0 : dtype) (srcs arrival : list tsource),
+    wf_sources t0 srcs -> Permutation arrival srcs ->
+    (t0 = TFloat \/ Forall (fun s => ts_remote s = false \/ ts_typ s <> TUnknown) srcs) ->
+    rows_of (typed_merge false arrival) = all_rows srcs /\
+    (forall t r, typed_merge false arrival = Some (t, r) -> t = t0).
+Proof. exact typed_merge_pinned_partial_l. Qed.
+Print Assumptions typed_merge_pinned_partial.
+
+(* Pinned rule refuted: one node without the measurement + two integer sources; when the empty
+   reply arrives first the merge returns no row at all, in another order all three
+   (witness replayed on the real code: corpus/C05.jsonl kind tmerge). *)
+Theorem typed_merge_complete_refuted :
+  exists t0 srcs a1 a2,
+    wf_sources t0 srcs /\ Permutation a1 srcs /\ Permutation a2 srcs /\
+    rows_of (typed_merge false a1) <> all_rows srcs /\
+    rows_of (typed_merge false a2) = all_rows srcs.
+Proof. exact typed_merge_complete_refuted_l. Qed.
+Print Assumptions typed_merge_complete_refuted.
+
+Theorem typed_merge_link :
+  forall t0 srcs arrival, wf_sources t0 srcs -> Permutation arrival srcs ->
+    tm_ok srcs (rows_of (typed_merge true arrival)) = true.
+Proof. exact tm_link. Qed.
+Print Assumptions typed_merge_link.
+
+Example ex_typed_merge_nontrivial :
+  wf_sources TInteger w_tm_srcs /\ typed_merge true w_tm_srcs = Some (TInteger, [1; 2; 3]) /\
+  typed_merge false w_tm_srcs = Some (TFloat, []).
+Proof.
+  split; [|split; vm_compute; reflexivity]. split; [discriminate|]. unfold w_tm_srcs.
+  constructor; [left; split; reflexivity|]. constructor; [right; reflexivity|].
+  constructor; [right; reflexivity|constructor].
+Qed.
+
+(* ====================================================================================
+   Merged storage result set (reads.NewMergedResultSet behind ClusterStoreMapping.ReadFilter /
+   the GroupNone and GroupBy merges): an input that fails must fail the merge.
+   ==================================================================================== *)
+
+(* Repaired rule: for every list of input result sets (each: any series, then a clean end or a
+   failure - also before its first series) and every arrival order: draining the merged result
+   set ends with an error iff some input failed, otherwise it delivers every series of every
+   input once. *)
+Theorem rs_merge_complete_or_error :
+  forall (srcs arrival : list rsource), Permutation arrival srcs ->
+    rs_merge true arrival = if rs_any_fails srcs then None else Some (rs_all srcs).
+Proof. exact rs_merge_complete_or_error_l. Qed.
+Print Assumptions rs_merge_complete_or_error.
+
+(* Pinned rule: holds when every failing input delivered a series first. *)
+Theorem rs_merge_pinned_partial :
+  forall l : list rsource,
+    Forall (fun s => rs_fails s = true -> rs_series s <> []) l ->
+    rs_merge false l = if rs_any_fails l then None else Some (rs_all l).
+Proof. exact rs_merge_pinned_partial_l. Qed.
+Print Assumptions rs_merge_pinned_partial.
+
+(* Pinned rule refuted: an input failing before its first series is read as empty. *)
+Theorem rs_merge_error_surfaces_refuted :
+  exists srcs, rs_any_fails srcs = true /\ rs_merge false srcs = Some [1; 2]
+               /\ rs_ok srcs (rs_merge false srcs) = false.
+Proof. exact rs_merge_error_surfaces_refuted_l. Qed.
+Print Assumptions rs_merge_error_surfaces_refuted.
+
+Theorem rs_merge_link :
+  forall srcs arrival, Permutation arrival srcs -> rs_ok srcs (rs_merge true arrival) = true.
+Proof. exact rs_link. Qed.
+Print Assumptions rs_merge_link.
+
+(* MapType over the fan-out (ClusterShardMapping.MapType): for every list of answers (local
+   mapping and remote groups, any order) the reported type is one of the answers (Unknown only
+   if every answer is Unknown or there is none) and no answer has precedence over it (dt_rank: the
+   order of DataType.LessThan, ProofsMerge.dt_less_than_rank) - no
+   source's knowledge of the field is ignored.  Diffed end to end (kind mtype). *)
+Theorem map_type_max :
+  forall types : list dtype,
+    (forall t, In t types -> dt_rank t <= dt_rank (map_type types)) /\
+    (map_type types = TUnknown \/ In (map_type types) types).
+Proof. exact map_type_max_l. Qed.
+Print Assumptions map_type_max.
+
+Example ex_map_type : map_type [TInteger; TUnknown; TFloat; TString] = TFloat /\ map_type [TBoolean; TUnsigned] = TUnsigned.
 Proof. split; vm_compute; reflexivity. Qed.
